@@ -4,6 +4,7 @@ import (
 	"context"
 	"errors"
 	"fmt"
+	"net"
 	"strings"
 
 	wire "github.com/jeroenrinzema/psql-wire"
@@ -22,9 +23,23 @@ type c19Config struct {
 	Auth   bool   // cleartext auth
 	Hook   string // absent | ok | error
 	NilCtx bool   // the failing middleware returns (nil, err) instead of (ctx, err)
+	Remote string // "" = the in-memory address; otherwise the kind of net.Addr the transport reports (c19Remotes)
+}
+
+// c19Remotes: remote addresses as real listeners report them.
+var c19Remotes = map[string]net.Addr{
+	"tcp4":             &net.TCPAddr{IP: net.IPv4(192, 0, 2, 7).To4(), Port: 40001},
+	"tcp4 in 16 bytes": &net.TCPAddr{IP: net.IPv4(192, 0, 2, 7), Port: 40002},
+	"tcp6":             &net.TCPAddr{IP: net.ParseIP("2001:db8::7"), Port: 40003},
+	"tcp6 loopback":    &net.TCPAddr{IP: net.ParseIP("::1"), Port: 40004},
+	"tcp6 with zone":   &net.TCPAddr{IP: net.ParseIP("fe80::7"), Port: 40005, Zone: "eth0"},
+	"unix":             &net.UnixAddr{Name: "/tmp/.s.PGSQL.5432", Net: "unix"},
 }
 
 func (c c19Config) String() string {
+	if c.Remote != "" {
+		return fmt.Sprintf("middlewares=%d auth=%v terminate_hook=%s remote_address=%s (%v)", c.M, c.Auth, c.Hook, c.Remote, c19Remotes[c.Remote])
+	}
 	if c.NilCtx {
 		return fmt.Sprintf("middlewares=%d failing=%d (returning a nil context with its error) auth=%v terminate_hook=%s", c.M, c.FailAt, c.Auth, c.Hook)
 	}
@@ -77,8 +92,8 @@ func (s *c19State) checkCtx(ctx context.Context, where string) {
 	if sp := wire.ServerParameters(ctx); sp == nil || sp["session_authorization"] != "alice" {
 		s.problems = append(s.problems, fmt.Sprintf("%s: ServerParameters = %v", where, sp))
 	}
-	if ra := wire.RemoteAddress(ctx); ra == nil || ra.String() != s.conn.Remote.String() {
-		s.problems = append(s.problems, fmt.Sprintf("%s: RemoteAddress = %v, connection is %v", where, ra, s.conn.Remote))
+	if ra, want := wire.RemoteAddress(ctx), s.conn.RemoteAddr(); ra == nil || ra.String() != want.String() || ra.Network() != want.Network() {
+		s.problems = append(s.problems, fmt.Sprintf("%s: RemoteAddress = %v, the transport reports %v", where, ra, want))
 	}
 	if wire.TypeMap(ctx) == nil {
 		s.problems = append(s.problems, where+": TypeMap is nil")
@@ -170,14 +185,17 @@ func c19RunFault(cfg c19Config, hist []c19Letter, k int) explore.Result {
 	st := &c19State{cfg: cfg}
 	rec := &script.Rec{}
 	parse, opts := c19Build(cfg, st, rec)
-	one, err := harness.StartOne(parse, opts...)
+	srv, err := harness.NewServer(parse, opts...)
 	if err != nil {
 		res.Engine = err.Error()
 		return res
 	}
+	mc := memnet.NewConn("mem:client1")
+	mc.RemoteOverride = c19Remotes[cfg.Remote]
+	st.conn = mc
+	rec.Conn = mc
+	one := &harness.One{Server: srv, Conn: srv.ConnectWith(mc)}
 	defer one.Stop()
-	st.conn = one.C
-	rec.Conn = one.C
 	out, status := one.Step(pgproto.Startup("user", "alice"))
 	if !strings.HasSuffix(harness.Kinds(out), "Z") || status != memnet.Parked {
 		res.Engine = "startup failed: " + harness.Kinds(out)
@@ -214,14 +232,17 @@ func c19Run(cfg c19Config, hist []c19Letter, oneSegment bool) explore.Result {
 	st := &c19State{cfg: cfg}
 	rec := &script.Rec{}
 	parse, opts := c19Build(cfg, st, rec)
-	one, err := harness.StartOne(parse, opts...)
+	srv, err := harness.NewServer(parse, opts...)
 	if err != nil {
 		res.Engine = err.Error()
 		return res
 	}
+	mc := memnet.NewConn("mem:client1")
+	mc.RemoteOverride = c19Remotes[cfg.Remote]
+	st.conn = mc
+	rec.Conn = mc
+	one := &harness.One{Server: srv, Conn: srv.ConnectWith(mc)}
 	defer one.Stop()
-	st.conn = one.C
-	rec.Conn = one.C
 	out, status := one.Step(pgproto.Startup("user", "alice"))
 	if cfg.Auth {
 		var o2 []byte
@@ -717,6 +738,21 @@ func c19Enumerate(tier string, emit explore.Emit) {
 					Run: func() explore.Result { return c19RunFault(cfg, hist, k) }})
 			}
 		})
+	}
+	// the remote address the transport reports (IPv4, IPv6, zoned, unix socket) is the one every callback finds
+	for _, remote := range []string{"tcp4", "tcp4 in 16 bytes", "tcp6", "tcp6 loopback", "tcp6 with zone", "unix"} {
+		for _, auth := range []bool{false, true} {
+			cfg := c19Config{M: 2, Auth: auth, Hook: "ok", Remote: remote}
+			forShapes(len(letters), 1, func(sh []int) {
+				hist := make([]c19Letter, len(sh))
+				for i, s := range sh {
+					hist[i] = letters[s]
+				}
+				emit(explore.Case{Family: "lifecycle", Size: 1 + len(hist),
+					Desc: func() any { return map[string]any{"config": cfg.String(), "history": c19Names(hist)} },
+					Run:  func() explore.Result { return c19Run(cfg, hist, false) }})
+			})
+		}
 	}
 	for m := 0; m <= 3; m++ {
 		for fail := 0; fail <= m; fail++ {
